@@ -21,3 +21,63 @@ def BExpr.eval (lss eql lssS eqlS : Bool) : BExpr → Bool
   | .or a b => a.eval lss eql lssS eqlS || b.eval lss eql lssS eqlS
 
 end Pug.Gen
+
+namespace Pug.Gen
+
+/-! ## guarded-return programs
+
+Straight-line Go functions of the shape "statements; `if cond { return .. }`; ...; `return ..`" are translated statement by
+statement by the extractor. Conditions are boolean combinations of ATOMS (named facts about the run: `openErr`, `statErr`,
+`isDir`, or the source text of any condition the translator does not interpret - which then is a free variable of every
+theorem about the program). -/
+
+inductive GCond where
+  | atom (a : String)
+  | not (c : GCond)
+  | and (a b : GCond)
+  | or (a b : GCond)
+  | tt
+  deriving Repr, DecidableEq
+
+inductive GStmt where
+  | act (name : String)                 -- a statement with an effect on the run, named by the translator
+  | retIf (c : GCond) (out : String)    -- `if c { return <out> }`
+  | ret (out : String)                  -- `return <out>`
+  deriving Repr, DecidableEq
+
+def GCond.eval (v : String → Bool) : GCond → Bool
+  | .atom a => v a
+  | .not c => !(c.eval v)
+  | .and a b => a.eval v && b.eval v
+  | .or a b => a.eval v || b.eval v
+  | .tt => true
+
+/-- outcome: the first return that is reached, with the effects performed before it -/
+def GStmt.run (v : String → Bool) : List GStmt → List String → Option (String × List String)
+  | [], _ => none
+  | .act n :: rest, done => GStmt.run v rest (done ++ [n])
+  | .retIf c out :: rest, done => if c.eval v then some (out, done) else GStmt.run v rest done
+  | .ret out :: _, done => some (out, done)
+
+def GCond.atoms : GCond → List String
+  | .atom a => [a]
+  | .not c => c.atoms
+  | .and a b => a.atoms ++ b.atoms
+  | .or a b => a.atoms ++ b.atoms
+  | .tt => []
+
+def GStmt.atoms : List GStmt → List String
+  | [] => []
+  | .act _ :: rest => GStmt.atoms rest
+  | .retIf c _ :: rest => c.atoms ++ GStmt.atoms rest
+  | .ret _ :: rest => GStmt.atoms rest
+
+/-- the valuation that reads atom `as[i]` from `bits[i]` (false elsewhere) -/
+def valOf (as : List String) (bits : List Bool) : String → Bool :=
+  fun a => ((as.zip bits).lookup a).getD false
+
+def allBits : Nat → List (List Bool)
+  | 0 => [[]]
+  | n + 1 => (allBits n).flatMap fun b => [false :: b, true :: b]
+
+end Pug.Gen
